@@ -28,6 +28,11 @@ def sym_equal(a, b):
     if isinstance(a, (S.SStr, str)) and isinstance(b, (S.SStr, str)):
         r = str_equal(a, b)
         return r.t if isinstance(r, S.SBool) else r
+    if isinstance(a, bool) and isinstance(b, bool):
+        return a == b
+    if isinstance(a, (S.SBool, bool)) and isinstance(b, (S.SBool, bool)):
+        r = z3.simplify(S.bterm(a) == S.bterm(b))
+        return True if z3.is_true(r) else (False if z3.is_false(r) else r)
     if isinstance(a, (S.SInt, S.SBool, int)) and isinstance(b, (S.SInt, S.SBool, int)) and not isinstance(a, str):
         r = z3.simplify(S.term(a) == S.term(b))
         if z3.is_true(r):
